@@ -202,7 +202,16 @@ Definition gen_mutex_bt : bool :=
   | Some (sites, _) => drops_after_listen sites && Nat.eqb (length (filter (fun x => String.eqb (fst (fst x)) "listen") sites)) 2
   | None => false
   end.
-Definition f6_report : bool * list act := (lostb (run gen_mutex_bt 2 (f6_schedule gen_mutex_bt)), f6_schedule gen_mutex_bt).
+(* is there no `*this.listener = None` at all in the function (then the machine [bt = false] is the source)? *)
+Definition no_listener_drop (fname : string) : bool :=
+  match fn_shape fname with
+  | Some (sites, _) => negb (existsb (fun x => String.eqb (fst (fst x)) "set_none" && String.eqb (snd (fst x)) "*this.listener") sites)
+  | None => false
+  end.
+(* what the check prints when the premise (MutexEvOrd.v) or a tie lemma of the Mutex fails: if the source is the machine
+   without the listener drops, the schedule of finding F6 evaluated on that machine *)
+Definition f6_report : bool * list act := (lostb (run false 2 (f6_schedule false)), f6_schedule false).
 Definition ord_report : list (string * bool) :=
   [("mutex::AcquireSlow::poll_with_strategy: `*this.listener = None` follows the compare_exchange after each of the two listen() sites"%string, gen_mutex_bt)].
-Definition bad_schedule : option (list act) := if fst f6_report then Some (snd f6_report) else None.
+Definition bad_schedule : option (list act) :=
+  if negb gen_mutex_bt && no_listener_drop "mutex::AcquireSlow::poll_with_strategy" && fst f6_report then Some (snd f6_report) else None.
